@@ -102,12 +102,12 @@ def _analyses():
             "real/complex assignment (A4), conjugation placement in modulus-family rules (A4.modulus), VJP/JVP factor agreement (holomorphic ufuncs: no conjugate in either table), holomorphic_grad = grad(real o f).",
         ),
         "C10": (
-            [kc.ownership, kc.purity, kc.inplace_sites, kc.closure_reuse, kc.backward_pass],
+            [kc.ownership, kc.purity, kc.inplace_sites, kc.closure_reuse, kc.backward_pass, km.container_vspaces],
             "Memory ownership: typestate proof of add_outgrads over all of its paths (A9.proto), purity of VSpace._add/_scalar_mul/_covector/_inner_prod (A9.pure), every in-place "
             "site writes memory allocated by the same function (A9.inplace, decided by def-use, not whitelisted), closures re-usable (A10), the user's cotangent enters as (g, False).",
         ),
         "C11": (
-            [kc.ownership, _a9_scatter, _a2_index_pairing, a1.types, a1.lin],
+            [kc.ownership, _a9_scatter, _a2_index_pairing, km.container_vspaces, a1.types, a1.lin],
             "Indexing gradients: the sparse branches of add_outgrads (every order of k sparse and m dense contributions reduces to its transitions), ufunc.at scatter so repeated "
             "indices accumulate (A9.scatter), __getitem__/untake pairing on the same index and the argument's space (A2.repo), both sparse object types registered (A1.types), 'same' JVPs (A1.lin).",
         ),
@@ -143,7 +143,7 @@ def _analyses():
             "registration slots and wrapper hand-over (A2.slot), argnums= honoured, 'same'/def_linear substitute at argnum, checkpoint wiring (A15).",
         ),
         "C19": (
-            [kt.global_effects, kt.trace_id_uses, kt.new_trace, kc.closure_reuse],
+            [kt.global_effects, kt.trace_id_uses, kt.new_trace, kc.closure_reuse, kc.backward_pass, kc.zero_paths],
             "History independence: the differentiation path writes exactly one piece of process-global state (A11), which is observed only through order/equality comparisons of ids of "
             "live boxes and updated only by balanced +-1 (A12.cmp/bal): results are invariant under any shift of ids, so a leaked increment after an exception cannot change them; closures re-usable (A10).",
         ),
@@ -368,6 +368,37 @@ def _vspace_members(ctx, world):
                 else:
                     ctx.fail("A1.members", inst, inst, loc_of(cref.mod, cref.node), f"{q} inherits the abstract `assert False` {name}", f"vspace(value).{name}() for a value of type {txt}")
     ctx.floor("A1.members resolved", n, 30)
+    # ArrayVSpace.__init__: shape and dtype are those of np.asarray(value), on every path
+    ma, fa = world.repo.find_def("autograd.numpy.numpy_vspaces", "ArrayVSpace.__init__")
+    from .kfun import paths as _paths
+
+    selfn, valn = fa.args.args[0].arg, fa.args.args[1].arg
+    okp = True
+    why = ""
+    for pth in _paths(fa.body):
+        if pth[-1].kind == "raise":
+            continue
+        env = {}
+        got = {}
+        for evn in pth:
+            st = evn.node
+            if evn.kind == "stmt" and isinstance(st, ast.Assign) and len(st.targets) == 1:
+                t, v = st.targets[0], st.value
+                if isinstance(t, ast.Name):
+                    is_as = isinstance(v, ast.Call) and getattr(v.func, "attr", getattr(v.func, "id", "")) in ("asarray", "asanyarray", "array") and v.args and isinstance(v.args[0], ast.Name) and (v.args[0].id == valn or env.get(v.args[0].id) == "value")
+                    env[t.id] = "asarray" if is_as else ("value" if isinstance(v, ast.Name) and v.id == valn else "other")
+                elif isinstance(t, ast.Attribute) and isinstance(t.value, ast.Name) and t.value.id == selfn:
+                    src = None
+                    if isinstance(v, ast.Attribute) and isinstance(v.value, ast.Name) and env.get(v.value.id) == "asarray" and v.attr == t.attr:
+                        src = "asarray"
+                    got[t.attr] = src
+        if got.get("shape") != "asarray" or got.get("dtype") != "asarray" or set(got) - {"shape", "dtype"}:
+            okp = False
+            why = f"on a path of __init__ the fields are {got}"
+    if okp:
+        ctx.ob("A1.members", "ArrayVSpace.__init__: shape/dtype = those of np.asarray(value) on every path; no other field", True, loc_of(ma, fa))
+    else:
+        ctx.fail("A1.members", "ArrayVSpace.__init__", "autograd.numpy.numpy_vspaces.ArrayVSpace.__init__", loc_of(ma, fa), f"ArrayVSpace.__init__ does not take shape and dtype from np.asarray(value) on every path ({why}): spaces of equal structure compare unequal or values of different dtype share a space", "a NumPy scalar of non-default precision (np.float32(1.0)) or a 0-d array")
     m, fn = world.repo.find_def("autograd.core", "VSpace.__eq__")
     src = ast.unparse(fn)
     ok = "type(self) == type(other)" in src.replace("  ", " ") and "__dict__" in src
